@@ -10,8 +10,8 @@ import (
 )
 
 func init() {
-	registerRule("escape", 25, "no string or []byte reaches encoder output raw: only constants and results of json.Marshal / strconv quoting", ruleEscape)
-	registerRule("fragment-disjoint", 20, "fragments concatenated by ConcatJSON cannot share a member name", ruleFragmentDisjoint)
+	registerRule("escape", 28, "no string or []byte reaches encoder output raw: only constants and results of json.Marshal / strconv quoting", ruleEscape)
+	registerRule("fragment-disjoint", 30, "fragments concatenated by ConcatJSON cannot share a member name", ruleFragmentDisjoint)
 	registerRule("map-order", 4, "a range over a map in encoder-reachable code only feeds another map or a slice sorted before use", ruleMapOrder)
 	registerRule("total-order", 1, "sort comparators decide ties: every < on possibly-equal keys is guarded by an inequality test", ruleTotalOrder)
 }
